@@ -154,6 +154,7 @@ func (in *Interp) undo() {
 // RunPath executes the harness along one decision prefix.
 func (in *Interp) RunPath(fn *ssa.Function, item workItem) (sum *PathSummary) {
 	in.resetPath(item)
+	in.S.ResetPath()
 	sum = &PathSummary{}
 	main := &Thread{id: 0, name: "main", resume: make(chan struct{}), state: tsRunnable, vc: vclock{0: 1}, wvc: vclock{0: 1}, held: map[Ptr]int{}, lastLog: -1}
 	in.threads = []*Thread{main}
@@ -369,6 +370,9 @@ func RunHarness(p *Program, cfg *Config, pkgPath, fnName string, log func(string
 	worker := func(id int) {
 		in := NewInterp(p, cfg, id)
 		defer in.S.Close()
+		if cfg.MaxWall > 0 {
+			in.S.Deadline = t0.Add(cfg.MaxWall + 20*time.Second)
+		}
 		func() {
 			defer func() {
 				if r := recover(); r != nil {
